@@ -141,7 +141,11 @@ func VH_C03() {
 	default:
 		want = cfg.normal
 	}
-	lg.WriteThru(vCtx, r, vTime0(), 0, "m", nil)
+	pmsg := "m"
+	if r == AlwaysLevel && vBool() {
+		pmsg = "" // a blank Print-severity record (one empty line) is routed and announced like any other
+	}
+	lg.WriteThru(vCtx, r, vTime0(), 0, pmsg, nil)
 	vCover("C03:probed")
 	cnt := func(xs []int, w int) int {
 		n := 0
